@@ -58,6 +58,10 @@ EXPLANATION += (
     ' Round 5: tmp_dir and the other settings are forwarded at every call (R-FWD/parameter-forwarded; two documented exceptions).'
 )
 
+EXPLANATION += (
+    ' Round 6: the recorded statistics path is tried before a same-named file beside the marker file (R-PROV/recorded-path-first).'
+)
+
 RULE_TEXT = (
     "one obligation per (CLI runner, input key), per write effect root, "
     "per temp acquisition and exit-set mode, per listing, per worker "
@@ -104,6 +108,7 @@ def check(ctx):
     check_fresh_names(ctx, pa)
     check_own_listing(ctx, pa)
     check_worker_outputs(ctx, pa)
+    check_recorded_path_first(ctx)
     # settings this property depends on are handed down every call
     # chain, never left to a callee's default (sa/rules/forwarding.py)
     from ..rules.forwarding import check_forwarding
@@ -652,3 +657,135 @@ def _name_from_iteration(pa, s, p, eff, loop, rd, cfg, fi):
                       'loop')
     return False, (f'the name parameters {sorted(used)} are bound outside '
                    'the dispatch loop')
+
+
+def check_recorded_path_first(ctx):
+    """when a marker file records where its statistics file is, that
+    recorded location is what a later stage reads; a same-named file next
+    to the marker file is a fall-back for a recorded path that no longer
+    exists.  Trying the fall-back first makes the result depend on
+    whatever an earlier run left in that directory.  Decided on the
+    existence tests of patch_child_to_parent: every test of a location
+    derived from the parent file's directory is reached only through a
+    test of the recorded path (for a first-match loop over a candidate
+    list: every element that can come first is the recorded path)."""
+    from ..core.defuse import Expander
+    from ..core import terms as T
+    db = ctx.db
+    rule = 'R-PROV/recorded-path-first'
+    fi = db.fn('utils.config_utils:patch_child_to_parent')
+    ctx.touch(fi)
+    cfg = cfg_of(fi)
+    rd = rd_of(fi)
+    ex = Expander(fi)
+
+    def kind(t):
+        """'alternative' if the location is derived from a *value* of the
+        table (the parent file), 'recorded' if only from a key"""
+        via_value = any(x[0] == 'sub' and x[1] == (
+            'param', 'child_to_parent') for x in T.subterms(t))
+        via_key = any(x[0] == 'iterelem' and x[1] == (
+            'param', 'child_to_parent') for x in T.subterms(t))
+        if via_value:
+            return 'alternative'
+        return 'recorded' if via_key else None
+
+    tests = []
+    for n in cfg.nodes:
+        if n.id not in rd.live:
+            continue
+        for c in cfg.calls_in(n):
+            f = c.func
+            if isinstance(f, ast.Attribute) and f.attr in (
+                    'is_file', 'exists') and not c.args:
+                tests.append((n, c, f.value))
+    if not tests:
+        raise AnalysisError('patch_child_to_parent: no existence test '
+                            'found')
+    recorded_nodes = set()
+    alt = []
+    for (n, c, recv) in tests:
+        t = ex.expand(recv, n.id)
+        # a first-match loop over a local candidate list
+        if isinstance(recv, ast.Name):
+            loop = None
+            p_ = getattr(c, '_parent', None)
+            while p_ is not None:
+                if isinstance(p_, ast.For) and isinstance(
+                        p_.target, ast.Name) and p_.target.id == recv.id \
+                        and isinstance(p_.iter, ast.Name):
+                    loop = p_
+                p_ = getattr(p_, '_parent', None)
+            params = {a.arg for a in fi.node.args.args}
+            firsts = []
+            if loop is not None and loop.iter.id not in params:
+                firsts = _possible_first_elements(fi, cfg, rd, loop.iter.id,
+                                                  loop)
+            if firsts:
+                for (an, e) in firsts:
+                    k = kind(ex.expand(e, an.id))
+                    alt.append((n, c, f'element `{unparse(e)[:40]}` of '
+                                f'`{loop.iter.id}` can be tried first',
+                                k == 'recorded', None))
+                continue
+        k = kind(t)
+        if k == 'recorded':
+            recorded_nodes.add(n.id)
+        elif k == 'alternative':
+            alt.append((n, c, None, None, n.id))
+    k_ = 0
+    for (n, c, msg, ok, nid) in alt:
+        if nid is not None:
+            p = cfg.path(cfg.entry, {nid},
+                         avoid=lambda x: x.id in recorded_nodes,
+                         edge_ok=lambda a, b, lab: lab != 'exc')
+            ok = p is None and bool(recorded_nodes)
+            msg = (f'`{unparse(c)[:50]}` (a location next to the parent '
+                   'file) can be tested without the recorded path having '
+                   'been tested first')
+        ctx.ob(rule, f'patch_child_to_parent:test#{k_}', fi.loc(c), ok,
+               'the recorded location is tried before the fall-back'
+               if ok else
+               msg + ': a same-named file left in that directory by an '
+               'earlier run is preferred over the file the metadata '
+               'names')
+        k_ += 1
+    if k_ == 0:
+        raise AnalysisError('patch_child_to_parent: the fall-back location '
+                            'test was not recognised')
+
+
+def _possible_first_elements(fi, cfg, rd, listname, loop):
+    """appends to a local list that can be the first one executed after
+    its creation: [(cfg node, appended expression)]"""
+    creation = [n for n in cfg.nodes if n.id in rd.live and isinstance(
+        n.ast, ast.Assign) and isinstance(n.ast.targets[0], ast.Name)
+        and n.ast.targets[0].id == listname]
+    appends = []
+    for n in cfg.nodes:
+        if n.id not in rd.live:
+            continue
+        for c in cfg.calls_in(n):
+            f = c.func
+            if isinstance(f, ast.Attribute) and f.attr == 'append' \
+                    and isinstance(f.value, ast.Name) \
+                    and f.value.id == listname and c.args:
+                appends.append((n, c.args[0]))
+    out = []
+    # elements of a literal
+    for cr in creation:
+        v = cr.ast.value
+        if isinstance(v, ast.List) and v.elts:
+            out.append((cr, v.elts[0]))
+            return out
+    ids = {a[0].id for a in appends}
+    for (an, e) in appends:
+        for cr in creation:
+            p = cfg.path(cr.id, {an.id},
+                         avoid=lambda x, _a=an: x.id in ids
+                         and x.id != _a.id,
+                         edge_ok=lambda a, b, lab: lab != 'exc')
+            if p is not None:
+                out.append((an, e))
+                break
+    return out
